@@ -104,6 +104,8 @@ def readExact (n : Nat) (cur : Bytes) : Except IoErr Bytes × Bytes :=
 structure Reader where
   hdr : GlobalHeader
   cur : Bytes
+  /-- `Pcap.failed`: a malformed record ends the stream; every later read reports the same error -/
+  failed : Option IoErr := none
   deriving Repr
 
 /-- `Pcap::from_file` on a `FileHandle::Reader` whose file holds `content` -/
@@ -140,36 +142,49 @@ inductive Res where
   | panic
   deriving DecidableEq, Repr
 
+/-- what `Pcap::next_packet` remembers of an error: `InvalidData` (a malformed record) is sticky -/
+def stickyOf (e : IoErr) : Option IoErr := if e = .invalidData then some e else none
+
 /-- `builtin_pcap_read_next` -/
 def readNext (r : Reader) : Res × Reader :=
-  match nextPacket r.hdr.snaplen r.cur with
-  | (.ok p, cur) => (.pkt p, { r with cur })
-  | (.error .unexpectedEof, cur) => (.null, { r with cur })
-  | (.error e, cur) => (.err e, { r with cur })
+  match r.failed with
+  | some e => (.err e, r)
+  | none =>
+    match nextPacket r.hdr.snaplen r.cur with
+    | (.ok p, cur) => (.pkt p, { r with cur })
+    | (.error .unexpectedEof, cur) => (.null, { r with cur })
+    | (.error e, cur) => (.err e, { r with cur, failed := stickyOf e })
 
-/-- the `for _ in 0..num_packets_to_read` loop of `builtin_pcap_read_all` -/
-def readLoop (snaplen : Nat) : Nat → Bytes → Except IoErr (List Packet) × Bytes
+/-- the `for _ in 0..num_packets_to_read` loop of `builtin_pcap_read_all`; an error comes with the
+packets read before it -/
+def readLoop (snaplen : Nat) : Nat → Bytes → Except (IoErr × List Packet) (List Packet) × Bytes
   | 0, cur => (.ok [], cur)
   | n + 1, cur =>
     match nextPacket snaplen cur with
     | (.ok p, cur1) =>
       match readLoop snaplen n cur1 with
       | (.ok ps, cur2) => (.ok (p :: ps), cur2)
-      | (.error e, cur2) => (.error e, cur2)
+      | (.error (e, ps), cur2) => (.error (e, p :: ps), cur2)
     | (.error .unexpectedEof, cur1) => (.ok [], cur1)
-    | (.error e, cur1) => (.error e, cur1)
+    | (.error e, cur1) => (.error (e, []), cur1)
 
 def USIZE_MAX : Nat := 18446744073709551615
 
 /-- `*num as usize` for an `i64` -/
 def asUsize (n : Int) : Nat := (n % 18446744073709551616).toNat
 
-/-- `builtin_pcap_read_all(f)` / `(f, n)` -/
+/-- `builtin_pcap_read_all(f)` / `(f, n)`: the packets read before a malformed record are still
+returned (the next read reports the error); with nothing read the error object is returned -/
 def readAll (r : Reader) (n : Option Int) : Res × Reader :=
   let count := match n with | none => USIZE_MAX | some k => asUsize k
-  match readLoop r.hdr.snaplen count r.cur with
-  | (.ok ps, cur) => (.arr ps, { r with cur })
-  | (.error e, cur) => (.err e, { r with cur })
+  match r.failed with
+  | some e => if count = 0 then (.arr [], r) else (.err e, r)
+  | none =>
+    match readLoop r.hdr.snaplen count r.cur with
+    | (.ok ps, cur) => (.arr ps, { r with cur })
+    | (.error (e, ps), cur) =>
+      if !ps.isEmpty && (stickyOf e).isSome then (.arr ps, { r with cur, failed := stickyOf e })
+      else (.err e, { r with cur, failed := stickyOf e })
 
 /-- `Pcap::new` on a fresh writer: the bytes of the default global header are written -/
 def newFile : Bytes := (GlobalHeader.new MAGIC_US).toBytes
